@@ -13,7 +13,7 @@
     however often it retries ([C05_third_side_open_refused], and the crowded
     branches of C01_open_outcome / C07_claim_outcome). *)
 From MW Require Import Base Store Monad Usage Server Websocket Service Findings Inv Obs
-     ProtoFacts StepFacts SweepFacts NpFactsA MbFactsA MbFactsB CrowdFacts Inst_Params CrashLife.
+     ProtoFacts StepFacts SweepFacts NpFactsA MbFactsA MbFactsB CrowdFacts Inst_Params CrashLife TwoSidesEver.
 Local Open Scope list_scope.
 
 (** over every non-crash event, for every mailbox id still alive: the side list only got longer at the end *)
@@ -82,6 +82,45 @@ Print Assumptions C05_nameplate_sides_only_grow_all.
 
 Example C05_crash_extends_side_lists : ltac:(let t := type of crash_extends_side_lists in exact t).
 Proof. exact crash_extends_side_lists. Qed.
+
+
+(** ** history level (TwoSidesEver.v): "at most two distinct sides are EVER subscribed to it or sent any of
+    its messages / told its mailbox id", for every history from the initial state -- commands, sweeps,
+    restarts and crashes -- and every incarnation: [served_in] collects, along the run, every side that held
+    the mailbox in some state or was sent one of its messages ([message_frames_to_served]: every message frame
+    of every event goes to a served side), reset whenever the mailbox has no row; all of them are among the
+    first two entries of its side list, hence at most two; likewise [told_in] for the sides sent `claimed`. *)
+Theorem C05_two_sides_ever_mailbox : ltac:(let t := type of two_sides_ever_mailbox in exact t).
+Proof. exact two_sides_ever_mailbox. Qed.
+Check C05_two_sides_ever_mailbox.
+Print Assumptions C05_two_sides_ever_mailbox.
+
+Theorem C05_at_most_two_sides_mailbox : ltac:(let t := type of at_most_two_sides_mailbox in exact t).
+Proof. exact at_most_two_sides_mailbox. Qed.
+Check C05_at_most_two_sides_mailbox.
+Print Assumptions C05_at_most_two_sides_mailbox.
+
+Theorem C05_two_sides_ever_nameplate : ltac:(let t := type of two_sides_ever_nameplate in exact t).
+Proof. exact two_sides_ever_nameplate. Qed.
+Check C05_two_sides_ever_nameplate.
+Print Assumptions C05_two_sides_ever_nameplate.
+
+Theorem C05_at_most_two_sides_nameplate : ltac:(let t := type of at_most_two_sides_nameplate in exact t).
+Proof. exact at_most_two_sides_nameplate. Qed.
+Check C05_at_most_two_sides_nameplate.
+Print Assumptions C05_at_most_two_sides_nameplate.
+
+Theorem C05_message_frames_to_served : ltac:(let t := type of message_frames_to_served in exact t).
+Proof. exact message_frames_to_served. Qed.
+Check C05_message_frames_to_served.
+Print Assumptions C05_message_frames_to_served.
+
+Theorem C05_served_in_spec : ltac:(let t := type of served_in_spec in exact t).
+Proof. exact served_in_spec. Qed.
+Print Assumptions C05_served_in_spec.
+
+Example C05_two_sides_ever_nonvacuous : ltac:(let t := type of two_sides_ever_nonvacuous in exact t).
+Proof. exact two_sides_ever_nonvacuous. Qed.
 
 
 Example C05_nonvacuous : SInv kf2_state /\ log kf2_state = [].
